@@ -137,7 +137,11 @@ func c03a(c *Ctx) {
 		found := false
 		for _, s := range scbs {
 			if s.isDeflt && s.dest == ci.id && hasLit(s.must, "+$0.Cases["+k+"].IsDefault") && instrDominates(ci.a, s.a) {
-				found = true
+				// exactly then: no further condition between "this case owns the body" and "it is the default"
+				pc := c.PC(fn)
+				if dnfEquiv(pc.canonOf(pc.At(s.a.Block())), dnfAndLit(pc.canonOf(pc.At(ci.a.Block())), "+$0.Cases["+k+"].IsDefault")) {
+					found = true
+				}
 			}
 		}
 		c.Check(found, name+"/"+role+"/default-owner", pos, "when the case owning this body is 'default' the body is recorded as the default destination", "no default-destination record guarded by Cases["+pretty(k)+"].IsDefault (the case that owns this body) with this chunk's id: a 'default:' that owns the body would never be taken")
@@ -297,7 +301,19 @@ func c03b(c *Ctx) {
 						neg = true
 					}
 				}
-				if neg {
+				// ... exactly when a default destination exists (the bookkeeping flag is set) and the
+				// case is not the default itself: without a default body the case has nothing to be
+				// kept out of, with one it must not run it
+				flagSet, notDefault := false, false
+				for _, l := range s.must {
+					if strings.HasPrefix(l, "+phi(") && !strings.Contains(l, " == ") && !strings.Contains(l, " < ") {
+						flagSet = true
+					}
+					if strings.HasPrefix(l, "-$0.Cases[") && strings.HasSuffix(l, "].IsDefault") {
+						notDefault = true
+					}
+				}
+				if neg && flagSet && notDefault {
 					trailing = true
 				}
 			}
